@@ -346,7 +346,7 @@ def check_relaxation(run, pkg, cls, pbc, nl, sel, slow):
         ok, how = S.decide_equal(g, want[name])
         if ok is False and atoms:
             ok = None
-        if ok is False and (g.free_symbols - want[name].free_symbols) & set(asym.values()):
+        if ok is False and (g.free_symbols - want[name].free_symbols) & (set(asym.values()) - set(sy.values())):
             # the column involves an array whose role was not identified (e.g. visit counts assigned in closed form instead of
             # incremented): not comparable with the reference monomial - undecided, never a violation
             ok = None
